@@ -8,6 +8,8 @@
 From Coq Require Import String List Bool NArith.
 From Verif Require Import Base.Str C13.Model C13.Spec C13.Builders C13.Proofs C13.SpecProofs C13.Lex C13.BuilderProofs C13.Extra C13.ExtraProofs.
 From VerifGen Require Import C13Tables.
+From Verif Require Base.Py C13.Source2.
+From VerifGen Require C13Src2.
 Import ListNotations.
 
 (* the boolean validator that Coq evaluates on the implementation's output is the stated specification *)
@@ -32,6 +34,76 @@ Theorem c13_authn_request_valid :
   forall a o, ar_ok a -> authn_request a = Some o -> spec live_table (to_tree live_table o).
 Proof. exact authn_request_valid. Qed.
 Print Assumptions c13_authn_request_valid.
+
+(* ---- round 6: create_requested_attribute_node's two loops over the attribute converters (eIDAS RequestedAttributes),
+   for EVERY list of converters (any number, any order, any content) and every spelling of the attribute *)
+(* the arguments for which the element is valid, stated on the input (ar_ok uses exactly this) *)
+Theorem c13_reqattr_valid :
+  forall cs r, rattr_ok cs r = true ->
+               exists q, ra_resolve cs r = Some q /\ owf live_table (requested_attribute q) = true.
+Proof. exact reqattr_valid. Qed.
+Print Assumptions c13_reqattr_valid.
+
+(* the FIRST map that knows the friendly name decides Name; maps loaded after it are not consulted, and a name_format
+   given by the caller only replaces that map's NameFormat *)
+Theorem c13_reqattr_first_map :
+  forall cs1 c cs2 r f n,
+    struthy (rq_name r) = false -> rq_friendly r = Some f -> is_empty f = false ->
+    (forall c', In c' cs1 -> sassoc (lower f) (cv_to c') = None) -> sassoc (lower f) (cv_to c) = Some n ->
+    exists q, ra_resolve (cs1 ++ c :: cs2) r = Some q /\ name_of q = Some n /\ friendly_of q = Some f
+              /\ format_of q = if struthy (rq_format r) then rq_format r else Some (cv_format c).
+Proof. exact reqattr_first_map. Qed.
+Print Assumptions c13_reqattr_first_map.
+
+Theorem c13_reqattr_names_independent_of_format :
+  forall cs r f,
+    option_map (fun q => (name_of q, friendly_of q)) (ra_resolve cs (with_format r f))
+    = option_map (fun q => (name_of q, friendly_of q)) (ra_resolve cs r).
+Proof. exact reqattr_names_independent_of_format. Qed.
+Print Assumptions c13_reqattr_names_independent_of_format.
+
+Theorem c13_reqattr_name_present :
+  forall cs r,
+    struthy (rq_name r) || (struthy (rq_friendly r) && knows cv_to (lower (text_of (rq_friendly r))) cs) = true ->
+    exists q n, ra_resolve cs r = Some q /\ name_of q = Some n.
+Proof. exact reqattr_name_present. Qed.
+Print Assumptions c13_reqattr_name_present.
+
+(* finding 10: an attribute the maps know, spelt with name AND friendly_name but no name_format, comes out without
+   the required NameFormat; outside that class every attribute the maps know is valid; with the proposed repair all are *)
+Theorem c13_reqattr_no_format_refuted :
+  exists cs r q, rattr_known cs r = true /\ ra_resolve cs r = Some q
+                 /\ valid live_table (CK k_extension_requested_attributes_RequestedAttribute)
+                          (to_tree live_table (requested_attribute q)) = false.
+Proof. exact reqattr_no_format_refuted. Qed.
+Print Assumptions c13_reqattr_no_format_refuted.
+
+Theorem c13_reqattr_known_guarded_valid :
+  forall cs r, rattr_known cs r = true -> rattr_guard r = true ->
+               exists q, ra_resolve cs r = Some q /\ owf live_table (requested_attribute q) = true.
+Proof. exact reqattr_known_guarded_valid. Qed.
+Print Assumptions c13_reqattr_known_guarded_valid.
+
+Theorem c13_reqattr_fixed_valid :
+  forall cs r, rattr_known cs r = true ->
+               exists q, ra_resolve cs r = Some q /\ owf live_table (requested_attribute_fixed cs q) = true.
+Proof. exact reqattr_fixed_valid. Qed.
+Print Assumptions c13_reqattr_fixed_valid.
+
+Theorem c13_reqattr_fixed_conservative :
+  forall cs q, struthy (format_of q) = true -> requested_attribute_fixed cs q = requested_attribute q.
+Proof. exact fixed_same. Qed.
+Print Assumptions c13_reqattr_fixed_conservative.
+
+(* the tie to the source TEXT: create_requested_attribute_node as translated on this run (coq/gen/C13Src2.v) computes,
+   for every list of attribute dictionaries and every list of converters, what Builders.ra_resolve_all computes *)
+Theorem c13_src2_requested_attribute_node :
+  forall ps l cs,
+    Forall2 Source2.rep_attr ps l -> forallb Source2.rattr_ascii l = true -> forallb Source2.conv_ok cs = true ->
+    C13Src2.src2_create_requested_attribute_node (Py.PList ps) (Py.PList (map Source2.enc_conv cs))
+    = Source2.enc_res (ra_resolve_all cs l).
+Proof. exact Source2.src2_crn_is_model. Qed.
+Print Assumptions c13_src2_requested_attribute_node.
 
 Theorem c13_logout_request_valid :
   forall a o, obs_ok (lr_ob a) -> opt_lexb LDateTime (lr_expire a) = true -> opt_ext_ok (lr_extensions a) = true ->
